@@ -451,6 +451,46 @@ pub fn run(tier: Tier) -> i32 {
     rep.set("fresh_process_documents", json!(pdocs.len()));
     rep.absorb("process", st);
 
+    // the svgdx command itself: what it prints (stdout and the error text on stderr) and its exit status are the same
+    // in every fresh process
+    let cli_docs: Vec<&str> = vec![
+        r##"<svg><rect xy="#a" wh="1"/><rect xy="#b" wh="1"/></svg>"##,
+        r##"<svg><rect xy="#a" wh="1"/><circle cxy="#b" r="1"/><line start="#c" end="#d"/><rect wh="{{1+}}"/></svg>"##,
+        r##"<svg><g><rect xy="#a" wh="1"/><if test="1"><rect xy="#b" wh="1"/></if></g><rect xy="#c" wh="1"/></svg>"##,
+        r##"<svg><rect wh="5" class="d-grid-5 d-grid-05 d-hatch-3" text="{{randint(1, 1000)}}"/></svg>"##,
+    ];
+    let reps = tier.pick(6, 12);
+    let st = run_space(cli_docs.len(), |i| {
+        let doc = cli_docs[i];
+        let mut outs: Vec<(Option<i32>, Vec<u8>, Vec<u8>)> = Vec::new();
+        for _ in 0..reps {
+            let mut child = match std::process::Command::new(crate::props::c01::SVGDX_BIN).stdin(std::process::Stdio::piped()).stdout(std::process::Stdio::piped()).stderr(std::process::Stdio::piped()).spawn() {
+                Ok(c) => c,
+                Err(_) => continue,
+            };
+            if let Some(mut si) = child.stdin.take() {
+                use std::io::Write;
+                let _ = si.write_all(doc.as_bytes());
+            }
+            if let Ok(o) = child.wait_with_output() {
+                outs.push((o.status.code(), o.stdout, o.stderr));
+            }
+        }
+        let distinct: std::collections::HashSet<u64> = outs.iter().map(hash64).collect();
+        let viol = if outs.len() == reps && distinct.len() == 1 {
+            None
+        } else {
+            Some(Violation {
+                clause: "command-output-differs-between-runs".into(),
+                signature: format!("C06/command/doc{i}"),
+                case: json!({"leg": "command", "input": doc}),
+                detail: format!("{doc}\n{} runs of the svgdx command gave {} different (status, stdout, stderr) results; e.g. stderr {:?} vs {:?}", outs.len(), distinct.len(), outs.first().map(|o| clip(&String::from_utf8_lossy(&o.2), 200)), outs.iter().find(|o| Some(hash64(*o)) != outs.first().map(hash64)).map(|o| clip(&String::from_utf8_lossy(&o.2), 200))),
+            })
+        };
+        CaseResult { case_hash: hash64(&doc), nontrivial: viol.is_none(), outcome_hash: distinct.iter().next().copied().unwrap_or(0), executions: reps as u64, violation: viol }
+    });
+    rep.absorb("command", st);
+
     rep.assume("hash iteration order reaches the output only through the hooked site in themes.rs append_pattern_styles; any other site is covered only by the repetition legs (sampling of hash seeds, labelled as such)");
     rep.assume("use_local_styles=false throughout (the randomised root id is the permitted exception)");
     rep.finish()
